@@ -299,6 +299,7 @@ class RefModel:
         self.kind = {c["name"]: c["kind"] for c in spec["comps"]}
         self.start = {c["name"]: c.get("start") for c in spec["comps"]}
         self.steps = {c["name"]: c["steps"] for c in spec["comps"] if c["kind"] == "model"}
+        self.outs = {c["name"]: c["outs"] for c in spec["comps"] if c["kind"] == "model"}
         self.inlinks = {}
         for li, l in enumerate(spec["links"]):
             self.inlinks.setdefault(l[3], []).append(li)
@@ -366,6 +367,59 @@ class RefModel:
             return "skip"  # mergers pull several sources: not followed here
         return self.source_request(ins[0], cur, snap)
 
+    def value_of(self, src, out, t):
+        i = next(k for k, c in enumerate(self.spec["comps"]) if c["name"] == src)
+        return float(t) + 1000.0 * (i * 4 + self.outs[src].index(out))
+
+    def expected_values(self, li, t, exp, pubs):
+        """candidate values for a successful consumer pull at t on link li (None: not modelled).
+        exp = result of source_request (None for push-based links)."""
+        ch = self.spec["links"][li][2]
+        s, so = self.spec["links"][li][0:2]
+        factor = 1.0
+        for a in ch:
+            if a[0] == "scale":
+                factor *= a[1]
+        if exp is not None:
+            # follow pull-based components: scale factors of their input links too
+            lj = li
+            while self.kind[self.spec["links"][lj][0]] != "model":
+                lj = self.inlinks[self.spec["links"][lj][0]][0]
+                for a in self.spec["links"][lj][2]:
+                    if a[0] == "scale":
+                        factor *= a[1]
+            src, out, tt = exp
+            # a consumer's first value at connect is the producer's *initial* value val(start), published for
+            # the composition start as well: publications at or before the producer's own start carry val(start)
+            ps = pubs[(src, out)]
+            d = [abs(p - tt) for p in ps]
+            near = [p for p, dd in zip(ps, d) if dd == min(d)]
+            st = self.start[src]
+            return [factor * self.value_of(src, out, max(p, st)) for p in near]
+        kinds = [a[0] for a in ch]
+        pb = [k for k in kinds if k in hs.PUSH_BASED]
+        if len(pb) != 1 or pb[0] not in ("next", "prev", "lin", "step") or any(k in hs.DELAYS for k in kinds) or self.kind[s] != "model":
+            return None
+        st = self.start[s]
+        series = [(p, self.value_of(s, so, max(p, st))) for p in pubs[(s, so)]]
+        # scale factors upstream of the interpolation apply to the series, downstream to the result: both linear
+        if t < series[0][0] or t > series[-1][0]:
+            return None
+        for p, v in series:
+            if p == t:
+                return [factor * v]
+        j = next(k for k, (p, _v) in enumerate(series) if p > t)
+        (t0, v0), (t1, v1) = series[j - 1], series[j]
+        frac = (t - t0) / (t1 - t0)
+        if pb[0] == "next":
+            return [factor * v1]
+        if pb[0] == "prev":
+            return [factor * v0]
+        if pb[0] == "lin":
+            return [factor * (v0 + (v1 - v0) * frac)]
+        pstep = next(a[1] for a in ch if a[0] == "step")
+        return [factor * (v1 if frac > pstep else v0)]
+
     def pull(self, comp, t):
         """record a consumer pull at t on all input links of comp (propagating through pull-based comps)"""
         for li in self.inlinks.get(comp, []):
@@ -419,6 +473,8 @@ def monitor(spec, trace, want=("C01", "C02")):
     stats = {"updates": 0, "non_min_updates": 0, "pulls": 0, "pull_fail": 0, "requests_checked": 0}
     inlink = {(l[3], l[4]): li for li, l in enumerate(spec["links"])}
     cur_snap, cur_pull, gets, pending = None, None, [], {}
+    # complete publication history of every model output: initial publications, then one per update
+    pubs = {(c["name"], o): sorted({m.comp_start, c["start"]}) for c in spec["comps"] if c["kind"] == "model" for o in c["outs"]}
     for ev in trace:
         if ev[0] == "pull-begin":
             cur_pull, gets = ev, []
@@ -434,7 +490,18 @@ def monitor(spec, trace, want=("C01", "C02")):
                 stats["requests_checked"] += 1
                 if got != want_g:
                     viol.append(("C13", "source-request-time", f"{ev[1]}.{ev[2]} pull at {ev[3]}: source outputs asked {got}, the documented shifts give {want_g}; chain {spec['links'][li][2]}", ev[:4]))
+                else:
+                    # value: the publication nearest to the requested time (either at the midpoint), scaled;
+                    # for one interpolation adapter without delays: its definition on the complete series
+                    cands = m.expected_values(li, ev[3], exp, pubs)
+                    if cands is not None:
+                        stats["values_checked"] = stats.get("values_checked", 0) + 1
+                        if not any(abs(ev[5] - c) <= 1e-9 * max(1.0, abs(c)) for c in cands):
+                            viol.append(("C13", "delivered-value", f"{ev[1]}.{ev[2]} pull at {ev[3]} delivered {ev[5]}, expected one of {cands[:3]} (source request {exp}); chain {spec['links'][li][2]}", ev[:4]))
             cur_pull = None
+        if ev[0] == "updated":
+            for o in m.outs[ev[1]]:
+                pubs[(ev[1], o)].append(ev[2])
         if ev[0] == "update":
             cur_snap = ev[4]
             _e, x, tcur, tnext, snap = ev
